@@ -92,7 +92,11 @@ def gen_value(rng, name, kind):
         return {'_t': 'Flags', 'a': a}
     if name in ('mf_data', 'user_data', 'layout_data'):
         t = {'mf_data': 'MeasurementData', 'user_data': 'UserData', 'layout_data': 'LayoutData'}[name]
-        return {'_t': t, 'a': {'k': rng.randint(0, 9), 's': rng.choice(['v', 'q"', '<&>']), 'l': [1, 2][:rng.randint(0, 2)]}}
+        if r() < 0.25:
+            # any JSON value is a legal payload, also the ones python treats as false
+            return {'_t': t, 'a': rng.choice([[], 0, {}, [1], 7]), 'o': r() < 0.6}
+        return {'_t': t, 'a': {'k': rng.randint(0, 9), 's': rng.choice(['v', 'q"', '<&>']), 'l': [1, 2][:rng.randint(0, 2)]},
+                'o': r() < 0.3}
     if name == 'boot_script':
         return rng.choice(['#!/bin/bash\necho hi', 'echo "q" && ls <a>', ''])
     if name == 'location':
